@@ -163,11 +163,14 @@ def generic_replay(o, seed):
     if "socketwrapper" in n:
         from props import C11, C12
         r = C11.replay(o, seed)
-        return r if r.get("reproduced") or "dechunk" not in n else C12.replay(o, seed)
+        return r if r.get("reproduced") or not ("dechunk" in n or "chunked" in o["name"]) else C12.replay(o, seed)
     if n.endswith("RTCMReader.parse"):
         return try_candidates("parse_static", parse_candidates(o, seed), key=lambda i, r: "parse")
     if "rtcmreader" in n or "ext.Stream" in n:
-        r = try_candidates("reader_safety", reader_candidates(o, seed), key=lambda i, r: "reader")
+        cands = reader_candidates(o, seed)
+        if "bytearray-stream" in (o.get("unit") or "") + o["name"]:
+            cands = (dict(c, bytearray=True) for c in cands)
+        r = try_candidates("reader_safety", cands, key=lambda i, r: "reader")
         if r.get("reproduced"):
             return r
         return try_candidates("reader_complete", complete_candidates(o, seed), key=lambda i, r: "reader-complete")
@@ -186,6 +189,10 @@ def generic_replay(o, seed):
             cands += [{"payload": (b"\x00" * k + tail).hex()} for k in (0, 1, 2, 0)]
         cands += [{"payload": "d300020123aabbcc"}, {"payload": "d30003012345aabbcc"}]  # payloads that look like frames
         cands += [{"payload": streams.good_payloads(rnd).hex()} for _ in range(60)]
+        # the other label option; payload bytes that are special in format strings and string literals
+        for tail in (b"{}", b"{", b"}}", b"{0}", b"%s", b"\\", b"'", b"\"", b"\n\r"):
+            cands += [{"payload": (b"\xff\xf0" + tail).hex(), "labelmsm": lm} for lm in (2, 1, 0)]
+        cands += [{"payload": streams.good_payloads(rnd).hex(), "labelmsm": 2} for _ in range(40)]
         return try_candidates("serialize", iter(cands), key=lambda i, r: "serialize")
     if n.endswith(".__setattr__"):
         from spec import streams, encoder
